@@ -144,9 +144,17 @@ func (ex *Exec) runJob(l *Loaded, tmpl *State, cfg JobConfig) (res *JobResult) {
 	ex.vioSeen = map[string]bool{}
 	ex.funcs = map[string]bool{}
 	ex.cuts = map[string]bool{}
+	ex.cutWithin = map[string]string{}
 	ex.vecPos = 0
 	for _, c := range cfg.Cut {
-		ex.cuts[c] = true
+		if key, ok := ex.resolveCut(l, c); ok {
+			ex.cuts[key] = true
+			if parts := strings.Split(c, "|"); len(parts) == 3 {
+				ex.cutWithin[key] = parts[2]
+			}
+		} else {
+			res.CutMissing = append(res.CutMissing, c)
+		}
 	}
 	if cfg.Unwind == 0 {
 		ex.cfg.Unwind = 1000
@@ -219,6 +227,58 @@ func (ex *Exec) runJob(l *Loaded, tmpl *State, cfg JobConfig) (res *JobResult) {
 		res.Status = "undecided"
 	}
 	return res
+}
+
+// resolveCut maps "function|loop statement text" to the loop-header block of the current source.
+func (ex *Exec) resolveCut(l *Loaded, spec string) (string, bool) {
+	parts := strings.Split(spec, "|")
+	if len(parts) < 2 {
+		return "", false
+	}
+	var fn *ssa.Function
+	for f := range ssautil.AllFunctions(l.prog) {
+		if f.String() == parts[0] {
+			fn = f
+			break
+		}
+	}
+	if fn == nil {
+		return "", false
+	}
+	for _, b := range fn.Blocks {
+		isHeader := false
+		for _, p := range b.Preds {
+			if p.Index >= b.Index && b.Dominates(p) {
+				isHeader = true
+			}
+		}
+		if !isHeader {
+			continue
+		}
+		pos := token.NoPos
+		for _, in := range b.Instrs {
+			if _, isPhi := in.(*ssa.Phi); isPhi {
+				continue
+			}
+			if in.Pos().IsValid() {
+				pos = in.Pos()
+				break
+			}
+		}
+		if !pos.IsValid() {
+			continue
+		}
+		pp := l.prog.Fset.Position(pos)
+		src, err := os.ReadFile(pp.Filename)
+		if err != nil {
+			continue
+		}
+		lines := strings.Split(string(src), "\n")
+		if pp.Line-1 < len(lines) && strings.TrimSpace(lines[pp.Line-1]) == strings.TrimSpace(parts[1]) {
+			return fmt.Sprintf("%s#%d", fn.String(), b.Index), true
+		}
+	}
+	return "", false
 }
 
 func (ex *Exec) runPath(st *State) {
